@@ -236,20 +236,26 @@ func (p *Prog) abstractArg(ctx *symCtx, setter string, t types.Type, variant int
 	if bias > 0 {
 		tag = fmt.Sprintf("val:%s#%d@%d", setter, variant, bias)
 	}
+	intOnly, _ := p.cache["biasintonly"].(bool)
+	lenBias := bias
+	if intOnly {
+		lenBias = 0 // the boundary value is one for integers only (strings stay inside 65 535 bytes)
+	}
 	switch u := t.Underlying().(type) {
 	case *types.Basic:
 		switch {
 		case u.Info()&types.IsBoolean != 0:
 			return sv{k: 'b', b: variant%2 == 0}, true
 		case u.Info()&types.IsString != 0:
-			if bias > 0 {
-				return sv{k: 's', i: bias, addr: tag}, true
+			if lenBias > 0 {
+				return sv{k: 's', i: lenBias, addr: tag}, true
 			}
 			return sv{k: 's', i: 1 + int64(variant), addr: tag}, true
 		case u.Info()&types.IsInteger != 0:
 			v := int64(1 + variant)
 			if strings.Contains(setter, "ReasonCode") {
-				v = 0x80 + int64(variant)
+				// an error code, a non-zero success-class code, Success itself, another error code
+				v = []int64{0x80, 0x10, 0x00, 0x81}[variant%4]
 			}
 			if bias > 0 && !strings.Contains(setter, "ReasonCode") {
 				v = bias
@@ -270,8 +276,8 @@ func (p *Prog) abstractArg(ctx *symCtx, setter string, t types.Type, variant int
 		}
 	case *types.Slice:
 		if isByteSlice(t) {
-			if bias > 0 {
-				return sv{k: 's', i: bias, addr: tag}, true
+			if lenBias > 0 {
+				return sv{k: 's', i: lenBias, addr: tag}, true
 			}
 			return sv{k: 's', i: 1 + int64(variant), addr: tag}, true
 		}
@@ -283,6 +289,10 @@ func (p *Prog) abstractArg(ctx *symCtx, setter string, t types.Type, variant int
 			case *types.Basic:
 				if eu.Info()&types.IsString != 0 {
 					ctx.mem[ep] = sv{k: 's', i: 1, addr: ep}
+					if k%2 == 1 && variant%2 == 1 {
+						// key/value lists: every second element (a value) is the empty string in the variant states
+						ctx.mem[ep] = sv{k: 's', i: 0, addr: ep}
+					}
 				} else {
 					ctx.mem[ep] = sv{k: 'i', i: k + 1}
 				}
@@ -294,6 +304,10 @@ func (p *Prog) abstractArg(ctx *symCtx, setter string, t types.Type, variant int
 						ctx.mem[fp] = sv{k: 's', i: 1, addr: fp}
 					} else if bt, ok := ft.Underlying().(*types.Basic); ok && bt.Info()&types.IsInteger != 0 {
 						ctx.mem[fp] = sv{k: 'i', i: k + 1}
+						if variant%2 == 1 && p.U.Sizes.Sizeof(bt) == 1 {
+							// option bytes: the largest valid combinations (retain handling 2, RAP, NL, QoS 2 / QoS 1)
+							ctx.mem[fp] = sv{k: 'i', i: 0x2E - k}
+						}
 					} else {
 						ctx.mem[fp] = zeroOf(ft, fp)
 					}
@@ -563,6 +577,15 @@ func (p *Prog) encoderTrace(st *packetState, fill *ssa.Function) ([]layoutEvent,
 		if !isWirePrimitive(callee) || inPrim > 0 || len(args) < 3 || args[1].addr != "REAL" {
 			return nil, false, true
 		}
+		// a wire primitive is a method of a type with a recognised wire kind; a list type that merely loops over
+		// its elements' emissions (also with a value receiver) is evaluated like any other composition
+		if rt, _ := types.Unalias(callee.Signature.Recv().Type()).(*types.Named); rt == nil || p.wireKindOf(rt) == "" {
+			if _, isSlice := callee.Signature.Recv().Type().Underlying().(*types.Slice); isSlice {
+				if eb, _, eems, _ := emissionsOf(p, callee); eb != nil && !writesBufferDirectly(callee, eb) && (len(eems) > 0 || len(AllLoops(callee)) > 0) {
+					return nil, false, true
+				}
+			}
+		}
 		inPrim++
 		saved := c.hook
 		rs, ok := c.evalPure(callee, args, nil, 1)
@@ -596,13 +619,16 @@ func (p *Prog) encoderTrace(st *packetState, fill *ssa.Function) ([]layoutEvent,
 // ---------- decoder replay ----------
 
 type replayResult struct {
-	Err      sv
-	Consumed int
-	Mem      map[string]sv
-	Maps     map[string][]mapEntry
-	Recv     string
-	Why      string // evaluation failure
-	Mismatch string // kind mismatch between token and destination
+	Err        sv
+	Consumed   int
+	Mem        map[string]sv
+	Maps       map[string][]mapEntry
+	Recv       string
+	Why        string // evaluation failure
+	Mismatch   string // kind mismatch between token and destination
+	BoolAsByte string // a boolean token of the specification was consumed by this plain byte decoder
+	Read       int64  // bytes ReadPacket took from the stream
+	Frame      int64  // size of the frame offered: 1 + size of the remaining-length field + remaining length
 }
 
 func (p *Prog) isWireDecoder(fn *ssa.Function) bool {
@@ -826,18 +852,16 @@ func (p *Prog) decoderReplay(tn string, header sv, toks []wireToken, total int64
 			}
 			tk.Val = sv{k: 'b', b: tk.Val.i == 1}
 		}
+		if dk == "byte" && pos > 0 && toks[pos-1].Kind == "ident" && toks[pos-1].Val.k == 'i' && specBoolProps[toks[pos-1].Val.i] {
+			res.BoolAsByte = typeStr(pt.Elem())
+		}
 		v := tk.Val
 		if v.k == 's' {
 			v.b = false
 		}
 		// a decoder that can succeed without storing (a string decoder returning early on length 0) leaves the
 		// destination as it was: whatever the dispatch or a constructor put there survives
-		keep := false
-		if v.k == 's' && v.i == 0 && p.keepsDestOnSuccess(callee) {
-			if old, ok := c.mem[args[0].addr]; ok && old.k == 's' && old.i > 0 {
-				keep = true
-			}
-		}
+		keep := v.k == 's' && v.i == 0 && p.keepsDestOnSuccess(callee)
 		if os.Getenv("MQV_REPLAY") != "" {
 			fmt.Fprintf(os.Stderr, "replay %s tok %d %s %s len=%d dest=%s old=%v keep=%v\n", tn, pos, tk.Kind, tk.What, v.i, args[0].addr, c.mem[args[0].addr], keep)
 		}
@@ -850,6 +874,11 @@ func (p *Prog) decoderReplay(tn string, header sv, toks []wireToken, total int64
 	}
 	rs, ok := ctx.evalPure(rp, []sv{{k: 'I', tup: []sv{{k: 'p', addr: "R:stream"}}}}, nil, 0)
 	res.Consumed = pos
+	res.Frame = int64(len(prefix)) + total
+	res.Read = int64(spos)
+	if bodyRead {
+		res.Read += total
+	}
 	res.Mem, res.Maps = ctx.mem, ctx.maps
 	if !ok {
 		if bodyErr != nil && bodyErr.k != 'z' {
@@ -1055,11 +1084,12 @@ func (p *Prog) observe(tn string, recv string, mem map[string]sv, maps map[strin
 // ---------- state enumeration ----------
 
 type stateSpec struct {
-	name   string
-	choose func(string) int
-	will   int   // 0 none, 1 will with content
-	bias   int64 // > 0: every string/binary length and every integer argument is this boundary value (clamped to the parameter's type)
-	qos    int64 // > 0: SetQoS is called with this value (3: malformed but constructible)
+	name    string
+	choose  func(string) int
+	will    int   // 0 none, 1 will with content
+	bias    int64 // > 0: every string/binary length and every integer argument is this boundary value (clamped to the parameter's type)
+	qos     int64 // > 0: SetQoS is called with this value (3: malformed but constructible)
+	intOnly bool  // the bias applies to integer arguments only
 }
 
 // boundaryValues: the boundary lengths named by the properties' quantifiers (C01: 0, 1, 127, 128, 16 383, 16 384,
@@ -1125,6 +1155,10 @@ func (p *Prog) buildStateSpec(tn string, spec stateSpec, choose func(string) int
 		p.cache["lenbias"] = spec.bias
 		defer delete(p.cache, "lenbias")
 	}
+	if spec.intOnly {
+		p.cache["biasintonly"] = true
+		defer delete(p.cache, "biasintonly")
+	}
 	if spec.qos > 0 {
 		p.cache["forceqos"] = spec.qos
 		defer delete(p.cache, "forceqos")
@@ -1160,7 +1194,7 @@ func (p *Prog) stateSpecs(tn string) []stateSpec {
 	}
 	wills := []int{0}
 	if hasWill {
-		wills = []int{0, 1}
+		wills = []int{0, 1, 3}
 	}
 	for _, w := range wills {
 		w := w
@@ -1168,9 +1202,15 @@ func (p *Prog) stateSpecs(tn string) []stateSpec {
 		if w == 1 {
 			wtag = "+will"
 		}
+		if w == 3 {
+			wtag = "+minimal will (topic only: empty payload, no properties, QoS 0)"
+		}
 		pick := func(f func(n string) int) func(string) int {
 			return func(n string) int {
 				if n == "SetWill" {
+					if w == 3 {
+						return 0
+					}
 					if w == 1 {
 						if v := f(n); v >= stateOverwrite && v < stateClear || v >= stateOverwriteRev {
 							return v // the will message is replaced by another one
@@ -1188,7 +1228,7 @@ func (p *Prog) stateSpecs(tn string) []stateSpec {
 				}
 				// fields that exist on the wire only together with another one
 				if dep, ok := dependsOnSetter[tn+"."+n]; ok {
-					if dep == "SetWill" && w == 0 {
+					if dep == "SetWill" && (w == 0 || w == 3) {
 						return -1
 					}
 					if dep != "SetWill" && f(dep) < 0 {
@@ -1201,8 +1241,15 @@ func (p *Prog) stateSpecs(tn string) []stateSpec {
 		out = append(out, stateSpec{name: "none" + wtag, choose: pick(func(string) int { return -1 }), will: w})
 		out = append(out, stateSpec{name: "all" + wtag, choose: pick(func(string) int { return 0 }), will: w})
 		out = append(out, stateSpec{name: "all(variant)" + wtag, choose: pick(func(string) int { return 1 }), will: w})
+		if w == 3 {
+			continue // the minimal will is combined with the three basic states only
+		}
 		for _, bv := range p.boundaryValues() {
 			out = append(out, stateSpec{name: fmt.Sprintf("all, lengths and integers at the boundary value %d", bv) + wtag, choose: pick(func(string) int { return 0 }), will: w, bias: bv})
+		}
+		for _, bv := range []int64{0xFFFFFF, 0x1000000, 268435455} {
+			// integer boundaries above the string limit (subscription identifiers reach 268 435 455; 32-bit fields)
+			out = append(out, stateSpec{name: fmt.Sprintf("all, integers at the boundary value %d", bv) + wtag, choose: pick(func(string) int { return 0 }), will: w, bias: bv, intOnly: true})
 		}
 		out = append(out, stateSpec{name: "all, each setter called twice (other value first)" + wtag, choose: pick(func(string) int { return stateOverwrite }), will: w})
 		out = append(out, stateSpec{name: "all, each setter called twice (other value last)" + wtag, choose: pick(func(string) int { return stateOverwriteRev }), will: w})
@@ -1226,6 +1273,16 @@ func (p *Prog) stateSpecs(tn string) []stateSpec {
 				}
 				return -1
 			}), will: w})
+			if w == 0 {
+				// the same setter alone with its second representative value (a non-zero success-class reason code,
+				// an empty value in a key/value list, the largest valid option byte …)
+				out = append(out, stateSpec{name: "only " + one + " (variant value)" + wtag, choose: pick(func(n string) int {
+					if n == one {
+						return 1
+					}
+					return -1
+				}), will: w})
+			}
 			out = append(out, stateSpec{name: "all but " + one + wtag, choose: pick(func(n string) int {
 				if n == one {
 					return -1
@@ -1291,6 +1348,33 @@ func (p *Prog) stateSpecs(tn string) []stateSpec {
 }
 
 // willState: a Publish prepared as will message (content, QoS 1, retain).
+// willFor: the will message state a state spec asks for (1: every will field set; 3: topic only).
+func (p *Prog) willFor(spec stateSpec) (*packetState, string) {
+	key := fmt.Sprintf("willstate:%d", spec.will)
+	type cached struct {
+		st  *packetState
+		why string
+	}
+	if v, ok := p.cache[key]; ok {
+		return v.(cached).st, v.(cached).why
+	}
+	var st *packetState
+	var why string
+	switch spec.will {
+	case 1:
+		st, why = p.willState()
+	case 3:
+		st, why = p.buildState("Publish", func(n string) int {
+			if n == "SetTopicName" {
+				return 0
+			}
+			return -1
+		}, nil)
+	}
+	p.cache[key] = cached{st, why}
+	return st, why
+}
+
 func (p *Prog) willState() (*packetState, string) {
 	return p.buildState("Publish", func(n string) int {
 		switch n {
